@@ -237,8 +237,13 @@ func (it *omapIter) next() tuple {
 func (i *interpreter) mapIter(m *omap) iter {
 	it := &omapIter{m: m}
 	if m != nil && m.n >= 2 && i.path != nil && i.path.forkMaps {
-		// unspecified iteration order: explore forward and reverse
-		if i.choice(2) == 1 {
+		// unspecified iteration order: explore forward and reverse; one
+		// direction per path (chosen at the first map range), which is enough to
+		// expose dependence on the order without a fork at every loop
+		if i.path.mapDir == 0 {
+			i.path.mapDir = 1 + i.choice(2)
+		}
+		if i.path.mapDir == 2 {
 			for p := len(m.entries) - 1; p >= 0; p-- {
 				it.order = append(it.order, p)
 			}
